@@ -34,6 +34,9 @@ pub struct Sched {
     filter: fn(&str) -> bool,
     /// harness-owned racy counter (vacuity guard): read at one point, written back +1 at the next
     pub canary: std::sync::atomic::AtomicU64,
+    /// per-execution object shared by the thread bodies (created by the first thread that needs it, so that
+    /// nothing of the subject survives from one execution to the next)
+    pub shared: Mutex<Option<Arc<dyn std::any::Any + Send + Sync>>>,
 }
 
 impl Sched {
@@ -43,6 +46,7 @@ impl Sched {
             cv: Condvar::new(),
             filter,
             canary: std::sync::atomic::AtomicU64::new(0),
+            shared: Mutex::new(None),
         })
     }
 
